@@ -50,6 +50,7 @@ class Result:
         self.wall = 0.0
         self.dev_bound = None
         self.extra = {}
+        self.coverage = set()
 
     def summary(self):
         return dict(scenario=self.name, states=self.states, transitions=self.transitions,
@@ -106,7 +107,8 @@ def _expand(task):
                 if w2.key() != k:
                     raise Divergence("double replay of %r differs" % (hist + [ev],))
             out.append(dict(ev=ev, key=k, dev=ndev, viol=viol, terminal=terminal,
-                            outcome=w.outcome() if terminal else None))
+                            outcome=w.outcome() if terminal else None,
+                            cov=w.coverage() if hasattr(w, "coverage") else None))
     except Divergence as e:
         return dict(error="DIVERGENCE: %s" % e, hist=hist)
     except Exception:
@@ -156,6 +158,8 @@ def explore(scn, nproc=None, log=None, stop_on_violation=False, max_violations=2
                 res.rechecks += r["nrecheck"]
                 for c in r["children"]:
                     res.transitions += 1
+                    if c.get("cov"):
+                        res.coverage |= c["cov"]
                     child_hist = hist + [c["ev"]]
                     bad = False
                     for v in c["viol"]:
